@@ -541,7 +541,9 @@ def _run_codec(case, mon, viol):
         if field == 'text_hint':
             return rng.choice([0, 1, 3])
         if field == 'type':
-            return rng.choice([1, 2, 3, 5])
+            # regular, directory, symlink, special, unknown, socket, char
+            # device, block device, fifo
+            return rng.choice([1, 2, 3, 4, 5, 6, 7, 8, 9])
         return None
 
     groups = {
@@ -597,6 +599,9 @@ def _run_codec(case, mon, viol):
                     exp[tn + '_ns'] = 0
         if v == 3 and 'permissions' in kw:
             exp['permissions'] = kw['permissions'] & 0xffff
+        if v == 4 and kw.get('type', 0) >= 6:
+            # filexfer-04 has no socket/device/fifo types: SPECIAL
+            exp['type'] = 4
         for f, want in exp.items():
             got = getattr(b, f)
             if f == 'extended':
